@@ -34,7 +34,7 @@ KINDS = {1: "EditGraph", 2: "SetMetaFilter"}
 U = 1024.0
 
 
-def _mk(case, order=None):
+def _mk(case, order=None, scale: float = 1.0):
     from clematis.engine.types import ProposedDelta, Plan, EditGraphOp, SetMetaFilterOp
     ds = case["deltas"]
     idxs = list(range(len(ds))) if order is None else list(order)
@@ -42,7 +42,7 @@ def _mk(case, order=None):
     for n, i in enumerate(idxs):
         d = ds[i]
         kind, tid = TARGETS[d["tgt"] - 1]
-        deltas.append(ProposedDelta(target_kind=kind, target_id=tid, attr="weight", delta=d["d"] / U,
+        deltas.append(ProposedDelta(target_kind=kind, target_id=tid, attr="weight", delta=d["d"] / U * scale,
                                     op_idx=(d["op"] - 1) if d["op"] else None, idx=n))
     ops = [EditGraphOp(kind="EditGraph", edits=[], cap=4), SetMetaFilterOp(kind="SetMetaFilter", params={})]
     plan = Plan(version="t3-plan-v1", ops=ops, deltas=deltas)
@@ -56,7 +56,7 @@ def _mk(case, order=None):
         else:
             cooldowns[kind] = 2
             last[kind] = 5          # 7-5 = 2 < 2 false -> not blocked (boundary)
-    cfg = {"delta_norm_cap_l2": case["l2"] / U, "novelty_cap_per_node": case["novelty"] / U,
+    cfg = {"delta_norm_cap_l2": case["l2"] / U * scale, "novelty_cap_per_node": case["novelty"] / U * scale,
            "churn_cap_edges": case["churn"], "cooldowns": cooldowns}
     ctx = SimpleNamespace(config=SimpleNamespace(t4=cfg), turn_id=7)
     state = {"meta": {"cooldowns": last}}
@@ -153,6 +153,19 @@ def replay_case(case) -> List[Tuple[str, str]]:
             fails.append(("OrderIndependent", f"listing {perm} gives {got}, listing {perms[0]} gives {first}"))
         if fails:
             break
+    if not fails and first is not None:
+        # the documented pipeline is homogeneous: with every magnitude and both caps multiplied by the same power of two
+        # (exact in doubles) the approved deltas are the same multiples - an absolute tolerance anywhere in the caps breaks it
+        sc = 2.0 ** -40
+        ctx, state, plan = _mk(case, perms[0], scale=sc)
+        try:
+            res = t4_filter(ctx, state, None, None, plan, None)
+            got2 = [((d.target_kind, d.target_id), d.delta) for d in res.approved_deltas]
+            if got2 != [(t, x * sc) for t, x in first]:
+                fails.append(("L2Bound" if scaled else "PipelineEqual", f"all magnitudes and caps scaled by 2^-40: approved {got2}, the unscaled case scaled by 2^-40 is "
+                                                                          f"{[(t, x * sc) for t, x in first]} (novelty cap {case['novelty'] / U * sc!r}, L2 cap {case['l2'] / U * sc!r})"))
+        except Exception as e:      # noqa: BLE001
+            fails.append(("PipelineEqual", f"t4_filter raised {type(e).__name__}: {e} on the case scaled by 2^-40"))
     return fails
 
 
